@@ -4,7 +4,8 @@
 import PydapModel.Dap4Index
 import Proofs.Slice
 import Proofs.Hyperslab
-namespace Pydap
+namespace Pydap.Dap4Index
+open Pydap
 
 theorem nonNeg_all : NonNegSl PSlice.all := by
   constructor <;> (intro a h; simp [PSlice.all] at h)
@@ -40,10 +41,10 @@ theorem combine_all_sel (N : Nat) (s : PSlice) (h : NonNegSl s) :
   rw [this] at hc
   exact map_some_inj _ _ hc
 
-end Pydap
+end Pydap.Dap4Index
 
-namespace Pydap
-open Pydap.Dap4
+namespace Pydap.Dap4Index
+open Pydap Pydap.Dap4
 
 theorem combine_zipFix (l : List Idx) (shape : List Nat) (h : l.length = shape.length) :
     combine (shape.map fun _ => Idx.sl PSlice.all) (zipFix l shape)
@@ -57,9 +58,10 @@ theorem combine_zipFix (l : List Idx) (shape : List Nat) (h : l.length = shape.l
       simp only [List.map_cons, zipFix, combine, List.zipWith_cons_cons]
       rw [ih ns (by simpa using h)]
       rfl
-end Pydap
+end Pydap.Dap4Index
 
-namespace Pydap
+namespace Pydap.Dap4Index
+open Pydap
 
 theorem sel_point (N m : Nat) (h : m < N) : sel N ⟨some (m : Int), some ((m : Int) + 1), none⟩ = [m] := by
   simp only [sel, npBound, Option.getD_none]
@@ -70,4 +72,4 @@ theorem sel_point (N m : Nat) (h : m < N) : sel N ⟨some (m : Int), some ((m : 
   have e2 : (min ((m : Int) + 1) N).toNat = m + 1 := by omega
   simp [e1, e2]
 
-end Pydap
+end Pydap.Dap4Index
